@@ -29,11 +29,23 @@ static int ngiven, workinit, workfree, memerr_seen;
 static int_t given[NPAN], gw[NPAN], smallest;       /* smallest singular position reported to this worker */
 static int_t cur_panel_w;
 
+#ifdef LEAKCHK
+/* the worker's own heap requests (spa_marker, w_lsub_end through intMalloc) go through the library's USER_MALLOC /
+   USER_FREE override points to these counting wrappers; the per-thread work storage may be REFUSED (caller workspace
+   too small for this worker): every return of the worker must leave the balance at zero */
+static int live, workinit_refused;
+void *vh_malloc(size_t s) { ++live; return malloc(s); }
+void vh_free(void *p) { if (p) --live; free(p); }
+#endif
 /* ---- stubs ---- */
 int_t pdgstrf_WorkInit(int_t n, int_t w, int_t **iw, double **dw)
 {
     static int_t iwork[(2 * 2 + 5 + NO_MARKER) * N]; static double dwork[8 * N];
-    ++workinit; *iw = iwork; *dw = dwork; return 0;
+    ++workinit;
+#ifdef LEAKCHK
+    if (vh_int_in(0, 1)) { workinit_refused = 1; *iw = 0; *dw = 0; return N + 1 + vh_int_in(0, 100); }
+#endif
+    *iw = iwork; *dw = dwork; return 0;
 }
 void pdgstrf_SetRWork(int_t n, int_t w, double *d, double **dense, double **tempv) { *dense = d; *tempv = d + 2 * N; }
 void pdgstrf_WorkFree(int_t *iw, double *dw, GlobalLU_t *G) { ++workfree; }
@@ -110,6 +122,22 @@ VH_MAIN
     pdgstrf_thread(&arg);
 
     vh_assert(workinit == 1, "work storage requested once");
+#ifdef LEAKCHK
+    if (workinit_refused) {
+        vh_assert(arg.info > N, "refused work storage is reported as a value above n");
+        vh_assert(workfree == 0, "work storage that was never obtained is not given back");
+        vh_assert(live == 0, "a worker whose work storage was refused leaves none of its own heap blocks behind");
+        vh_assert(ngiven == 0, "a worker without work storage takes no panel");
+#ifdef WITNESS
+        vh_assert(0, "WITNESS reached");
+#endif
+        return 0;
+    }
+#ifdef WITNESS
+    vh_assume(0);   /* the twin of the leak query must reach the refused-storage return */
+#endif
+    if (!memerr_seen) vh_assert(live == 0, "the worker returns every heap block of its own on a return without memory error");
+#endif
     if (!memerr_seen) {
         vh_assert(arg.info == smallest, "the worker reports the smallest zero-pivot position it met (0 if none)");
         vh_assert(workfree == 1, "work storage given back exactly once");
